@@ -137,6 +137,8 @@ let case_h id cfg opss obs =
        | Base.Ok fe ->
          Buffer.add_string b ("/" ^ hn (moof_size fe) ^ "/" ^ hn (md_header_size fe.fr_mdat) ^ "/" ^ hn (encoded_len fe));
          Buffer.add_string b (traf_enc fe);
+         if g "plain" = "1" then
+           Buffer.add_string b ("|moof=" ^ (match enc_moof (hexn (g "seq")) fe with Base.Ok l -> hex_of_bytes l | _ -> "panic"));
          if g "dec" = "1" then begin
            let d = decoded_view fe (hexn (g "p0")) lazy_data in
            Buffer.add_string b "|dec=";
